@@ -60,3 +60,19 @@ Theorem C09_double_fetch_refuted :
   | _ => False
   end.
 Proof. exact double_fetch_refuted. Qed.
+
+(* copy_and_verify_buffer_address on a pointer that itself lies in sandbox memory: the address the verifier receives is
+   the one that was range-checked (null, or the whole buffer inside sandbox memory), for every adversary schedule - the
+   interleave point inside the range check included; handing over a second fetch is refuted *)
+Theorem C09_buffer_address : forall sc total size cell m t v m' t',
+  vrun sc (cv_buffer_address total size cell) m t = Ok (v, m', t') -> v = 0 \/ v + size <= total.
+Proof. exact buffer_address_checked. Qed.
+Theorem C09_buffer_address_refetch_refuted :
+  let m0 := [16; 0; 0; 0] in
+  let sc := fun i : nat => match i with 1%nat => [(0%nat, 250)] | _ => [] end in
+  match vrun sc (cv_buffer_address_refetch 256 64 0) m0 0 with
+  | Ok (v, _, _) => v = 250 /\ ~ (v = 0 \/ v + 64 <= 256)
+  | _ => False
+  end.
+Proof. exact buffer_address_refetch_refuted. Qed.
+Print Assumptions C09_buffer_address.
